@@ -1451,6 +1451,15 @@ class Stage:
         ret._state_der = HashDict(zip(self._state_der.keys(), renew(self._state_der.values())))
         ret._state_next = HashDict(zip(self._state_next.keys(), renew(self._state_next.values())))
         ret._alg = renew(self._alg)
+        # Symbols standing for derivatives / inert expressions in grid='inf' constraints, and B-spline signals
+        ret._inf_der = HashOrderedDict(zip(self._inf_der.keys(), renew(self._inf_der.values())))
+        ret._inf_inert = HashOrderedDict(zip(self._inf_inert.keys(), renew(self._inf_inert.values())))
+        ret._signals = HashOrderedDict()
+        for symbol, signal in self._signals.items():
+            AbstractSignal.register(ret._signals, symbol, AbstractSignal(signal.order))
+        for symbol, signal in self._signals.items():
+            if signal.derivative is not None:
+                ret._signals[symbol].derivative = ret._signals[signal.derivative.symbol]
         r = res[:n_constr]
         ret._constraints = defaultdict(list)
         for k in constr_types:
